@@ -248,6 +248,15 @@ class ElementList(MutableSequence):
             except KeyError:
                 self.indexes[child.name] = [child]
             self.list.insert(index, child)
+        elif child.parent == self.element and any(c is child for c in self.list):
+            # the child had no parent yet: _can_add_child attached it through its parent setter, which appended
+            # it at the end of both the list and the by-name index. Move it to the requested position
+            self.list.remove(child)
+            self.list.insert(index, child)
+            if by_name_index != -1:
+                by_name = self.indexes[child.name]
+                by_name.remove(child)
+                by_name.insert(by_name_index, child)
 
     def append(self, child):
         """
